@@ -104,6 +104,7 @@ let run_qs cap blocked ops =
                  | BDeliverBytes _ -> ODeliver (n_of_int delivered_k)
                  | BFeedbackBytes _ -> OFeedback (n_of_int (List.length before.s_dq - List.length s1.s_dq))) in
         let wired i = (match wire_dinstr i with Ok b -> hx b | _ -> "wire-err") in
+        let letter = match o with OEncode _ -> "E" | ODeliver _ -> "I" | ODecode _ -> "B" | OFeedback _ -> "K" | OCancel _ -> "C" | OResize _ -> "Z" in
         let w = match o, r with
           | _, RPanic _ -> stop := true; letter ^ ":panic"
           | OEncode _, REncoded e ->
